@@ -406,7 +406,7 @@ func c08SQLExpr(g *Gen, al string, cols []c08Col, depth int) string {
 		return Pick(g, []string{"upper(" + col("s") + ")", col("s") + " + 'x'", "COALESCE(" + col("s") + ", 'q')", col("m") + "::string",
 			"substr(" + col("s") + ", 0, 1)", "string(" + col("ifsm") + ")"})
 	case 8:
-		return Pick(g, []string{col("f") + " * 2.0", "float(" + col("i") + ")", "COALESCE(" + col("f") + ", 0.5)", "sqrt(" + col("f") + ")",
+		return Pick(g, []string{col("f") + " * 2.0", "float(" + col("i") + ")", "COALESCE(" + col("f") + ", 0.5)", "floor(" + col("f") + ")",
 			"float(" + col("s") + ")"})
 	case 9:
 		return "(" + sub() + ", " + col("ifsm") + ")"
